@@ -27,6 +27,7 @@ def bernoulli_moment(cx):
 
 @contract(D + 'categorical.py', 'Categorical.get_moment', ['C08', 'C03'])
 def categorical_moment(cx):
+    cx.replay = dict(kind='categorical_moment')
     probs = cx.seq('probabilities', DR); k = cx.int('k')
     cx.param(self=cx.obj('Categorical', probabilities=probs), k=k)
     cx.requires(k.t >= 0)
@@ -51,6 +52,7 @@ def discrete_uniform_moment(cx):
 
 @contract(D + 'uniform.py', 'Uniform.get_moment', ['C08', 'C03'])
 def uniform_moment(cx):
+    cx.replay = dict(kind='uniform_moment')
     a, b = cx.real('a'), cx.real('b'); k = cx.int('k')
     cx.param(self=cx.obj('Uniform', a=a, b=b), k=k)
     cx.requires(k.t >= 0, a.t != b.t)
@@ -60,6 +62,7 @@ def uniform_moment(cx):
 
 @contract(D + 'exponential.py', 'Exponential.get_moment', ['C08', 'C03'])
 def exponential_moment(cx):
+    cx.replay = dict(kind='exponential_moment')
     lamb = cx.real('lamb'); k = cx.int('k')
     cx.param(self=cx.obj('Exponential', lamb=lamb), k=k)
     cx.requires(k.t >= 0, lamb.t != 0)
